@@ -15,7 +15,7 @@ props = {
    note="Assumes the virtual clock patch (saml2.time_util.time/datetime), whole-second clock, xmlsec1 stand-in. The equality second now == bound+skew is left free in the spec but compared model-vs-code.", design="6/C05"),
  "C06": dict(
    text="Theorem c06_correlation_status_shape: for every outstanding-request set (any size), Response/SubjectConfirmation InResponseTo placement, allow_unsolicited, status, version and assertion shape the modelled decision satisfies correlation (identity only for an outstanding id, all confirmation InResponseTo equal to it, stored context handed back), status (non-Success never yields identity; error class as the code's name demands), shape, and two completeness clauses; by induction over the confirmation list. c06_table_names / c06_table_injective are obligations over the STATUSCODE2EXCEPTION table regenerated from the live source on every run. Correspondence: ~1500 signed Responses (complete products per group + random mixtures).",
-   note="Assumes browser binding, the xmlsec1 stand-in, valid signature/times/audience in every case. The boolean spec evaluated on implementation outputs is written next to the Prop spec; their equivalence is not yet a theorem for C06.", design="6/C06"),
+   note="Assumes browser binding, the xmlsec1 stand-in, valid signature/times/audience in every case. c06_spec_b_sound: the boolean spec evaluated on implementation outputs implies the Prop spec.", design="6/C06"),
  "C01": dict(
    text="Theorem c01_policy: for all 8192 cells (3 options x {unset, True, False, 'true'} x Response signature state x assertion signature state x plain/encrypted x 4 bindings) the modelled two-pass control flow of _parse_response yields identity iff every present signature verifies and the demanded signatures are carried (both directions; PAOS never unravelled) - a finite truth table proved completely inside the kernel; c01_defaults is an obligation over the option defaults regenerated from client_base.py by AST on every run. Correspondence: the real Saml2Client on real RSA signatures (valid / byte-corrupted / made with an untrusted key), real encryption and all bindings: quick = all 1024 POST/plain cells + 1000 seeded cells of the rest, thorough = all 8192.",
    note="Assumes the xmlsec1 stand-in (sign/verify/encrypt/decrypt) and ideal RSA/AES; message content is not an input of the signature decision (widened randomly in the correspondence).", design="6/C01"),
